@@ -93,7 +93,8 @@ SeqCrashHandler(int sig, siginfo_t *si, void *)
   if (once.exchange(1) != 0) _exit(4);
   const bool mcs = strcmp(g_cls_name, "mcs") == 0;
   const bool guard_op = tl_cur_op == kReset || tl_cur_op == kDtor || tl_cur_op == kMoveCtor || tl_cur_op == kMoveAssign;
-  const char *prop = tl_cur_op < 0 ? "HARNESS" : ((guard_op || !mcs) ? "C07" : "C12");
+  const bool composite = (guard_op && tl_cur_kind == kKCG) || tl_cur_op == kPrepare || tl_cur_op == kCgVerify;
+  const char *prop = tl_cur_op < 0 ? "HARNESS" : (composite ? "C13" : ((guard_op || !mcs) ? "C07" : "C12"));
   char buf[1024];
   const int n = snprintf(buf, sizeof buf,
                          "RESULT {\"status\":\"crash\",\"counters\":{\"crashes\":1,\"evaluations\":%" PRIu64 "},\"strings\":{},\"chaos\":{},"
